@@ -148,9 +148,12 @@ func matrixCases() []*Case {
 			out = append(out, k)
 		}
 	}
-	// unknown provisioner in the URL
+	// unknown provisioner in the URL; a provisioner of another type (JWK) in the URL
 	for _, route := range allRoutes {
 		out = append(out, base(route, 2, 0, 0, "valid"))
+		out = append(out, base(route, 3, 0, 0, "valid"))
+		k := base(route, 3, 4, 0, "valid")
+		out = append(out, k)
 	}
 	// deactivation and what follows
 	for _, route := range allRoutes {
@@ -163,11 +166,60 @@ func matrixCases() []*Case {
 	return out
 }
 
+// legacyOK: the deprecated mounting uses the real validation client; requests that would make it fetch are left out
+func legacyOK(k *Case) bool {
+	return !(k.Route == "challenge" && k.Which == "pending") && !k.ProvSwap
+}
+
+// legacyCases: the same API mounted through api.NewHandler(HandlerOptions).Route — the request context is built
+// per request from the options — with a prerequisites checker that agrees (every third case of the matrix),
+// objects (501) or fails (500): then nothing may be looked at, no nonce minted, none consumed.
+func legacyCases() []*Case {
+	var out []*Case
+	j := 0
+	for _, k := range matrixCases() {
+		if !legacyOK(k) {
+			continue
+		}
+		j++
+		if j%3 != 0 {
+			continue
+		}
+		k.Legacy = true
+		out = append(out, k)
+	}
+	for _, route := range allRoutes {
+		for _, pre := range []int{1, 2} {
+			for _, req := range []int{0, 3, 4} {
+				k := base(route, 0, req, 0, "valid")
+				k.Legacy, k.Pre = true, pre
+				out = append(out, k)
+			}
+			k := base(route, 2, 0, 0, "valid") // unknown provisioner: the linker answers first
+			k.Legacy, k.Pre = true, pre
+			out = append(out, k)
+			k = base(route, 0, 0, 0, "valid")
+			k.Legacy, k.Pre, k.J.Nonce = true, pre, "reused"
+			out = append(out, k)
+		}
+	}
+	return out
+}
+
+// maybeLegacy sends one random case in eight through the deprecated mounting.
+func maybeLegacy(k *Case, r *c.Rng) *Case {
+	if r.Chance(1, 8) && legacyOK(k) {
+		k.Legacy = true
+		k.Pre = c.Pick(r, []int{0, 0, 0, 1, 2})
+	}
+	return k
+}
+
 func genMatrix(r *c.Rng) *Case {
 	route := c.Pick(r, allRoutes)
 	k := base(route, r.Intn(2), r.Intn(5), r.Intn(4), c.Pick(r, []string{"valid", "pending"}))
 	if r.Chance(1, 25) {
-		k.Prov = 2
+		k.Prov = c.Pick(r, []int{2, 3})
 	}
 	if r.Chance(1, 10) {
 		k.Req = c.Pick(r, []int{5, 5, 6, 7})
